@@ -66,6 +66,8 @@ def cases(tier, seed):
         yield {"fam": "wide", "i": i}
     for i in range(36 if tier == "quick" else 360):
         yield {"fam": "huge", "i": i}
+    for i in range(12 if tier == "quick" else 120):
+        yield {"fam": "bigvol", "i": i}
 
 
 def setup(ctx):
@@ -241,8 +243,48 @@ def huge_labels(ctx, i):
         ctx.viol("undefined_label_accepted", {"pred": pred, "ref": refa, "groups": gdef, "undefined_label": bad, "where": where, "input": it}, features={"input": it, "where": where, "huge_labels": True})
 
 
+def big_volume(ctx, i):
+    """sparse volumes beyond 2^18 / 2^20 / 2^22 voxels whose groups have instances in the first and in the last voxels"""
+    pred, refa = gen.big_volume_pair(ctx.seed, i, ctx.tier)
+    it = ["UNMATCHED_INSTANCE", "MATCHED_INSTANCE", "SEMANTIC"][i % 3]
+    r = gen.rng(ctx.seed, "c12big", i)
+    if it == "MATCHED_INSTANCE":
+        pred = gen.make_matched(pred, refa, r)
+    split = [[1, 4, 7], [2, 3, 5, 6]] if i % 2 else [[3, 5], [1, 2], [4, 6, 7]]
+    labels = sorted(set(int(x) for x in np.unique(pred)) | set(int(x) for x in np.unique(refa))) 
+    gdef = {}
+    for j, b in enumerate(split):
+        gdef[f"G{j}"] = {"labels": b, "kind": ["plain", "merge"][(i + j) % 2] if it == "SEMANTIC" or (i + j) % 4 == 3 else "plain", "single": False}
+    known = {l for b in split for l in b}
+    extra = [l for l in labels if l and l not in known]
+    if extra:
+        gdef["G0"]["labels"] = gdef["G0"]["labels"] + extra
+    cfg = {"input": it, "backend": [None, "cc3d", "scipy"][i % 3],
+           "matcher": None if it == "MATCHED_INSTANCE" else {"kind": "naive", "metric": "IOU", "thr": 0.3, "m2o": False}, "global": ["DSC", "IOU"]}
+    grouped = meta.run_all_groups(dict(cfg, groups=gdef), pred, refa)
+    ctx.count("evaluations")
+    ctx.count("f:C12.big_sparse_volume")
+    det = {"pred": "big_volume_pair(%d)" % i, "shape": list(pred.shape), "cfg": cfg, "groups": gdef}
+    if "ERR" in grouped:
+        ctx.viol("grouped_evaluate_raised", dict(det, exc=grouped["ERR"]), features={"input": it, "big_volume": True})
+        return
+    for name, g in gdef.items():
+        p2, r2 = restrict(pred, g["labels"], g["kind"] == "merge"), restrict(refa, g["labels"], g["kind"] == "merge")
+        single = meta.run(cfg, p2, r2)
+        ctx.count("evaluations")
+        ctx.count("C12.groups_judged")
+        d = meta.diff(grouped[name.lower()], single)
+        if d is not None:
+            ctx.viol("group_result_differs_from_restricted_evaluation", dict(det, group=name, key=d, grouped=grouped[name.lower()], restricted=single),
+                     features={"input": it, "kind": g["kind"], "key": d.split(":")[0], "big_volume": True})
+        else:
+            ctx.nontrivial("big", i, name, it)
+
+
 def run(case, ctx):
     fam = case["fam"]
+    if fam == "bigvol":
+        return big_volume(ctx, case["i"])
     if fam == "huge":
         return huge_labels(ctx, case["i"])
     if fam == "wide":
